@@ -55,7 +55,10 @@ func init() {
 			c.guard("taintsize", func() { ruleTaintSize(c, "taintsize", "io/featio/bed", "io/featio/gff"); c.floor("taintsize", 1) })
 			c.guard("lencheck", func() { ruleLenCheck(c, "lencheck"); c.floor("lencheck", 1) })
 			c.guard("sentinel", func() { ruleSentinel(c, "sentinel", "io/featio/bed", "io/featio/gff"); c.floor("sentinel", 2) })
-			c.guard("recovercover", func() { ruleRecoverCover(c, "recovercover", "io/featio/bed", "io/featio/gff"); c.floor("recovercover", 2) })
+			c.guard("recovercover", func() {
+				ruleRecoverCover(c, "recovercover", "io/featio/bed", "io/featio/gff")
+				c.floor("recovercover", 2)
+			})
 			c.guard("arrayrange", func() { ruleArrayRange(c, "arrayrange", "alphabet"); c.floor("arrayrange", 4) })
 			c.guard("lineio/eofhang", func() {
 				ruleEOFPaths(c, "lineio/eofhang", "", "io/featio/bed", "io/featio/gff")
@@ -83,7 +86,9 @@ func init() {
 			c.guard("lineio/eofdata", func() { ruleDataOnEOF(c, "lineio/eofdata", seqs...) })
 			c.guard("lineio/rawline", func() { ruleRawLine(c, "lineio/rawline", seqs...); c.floor("lineio/rawline", 2) })
 			c.guard("lineio/pendingeof", func() { rulePendingEOF(c, "lineio/pendingeof", seqs...); c.floor("lineio/pendingeof", 2) })
-			c.guard("linelimit", func() { ruleLineLimit(c, "linelimit", "io/featio/bed", "io/featio/gff", "io/seqio/fasta", "io/seqio/fastq") })
+			c.guard("linelimit", func() {
+				ruleLineLimit(c, "linelimit", "io/featio/bed", "io/featio/gff", "io/seqio/fasta", "io/seqio/fastq")
+			})
 			c.guard("bufalias", func() {
 				ruleBufAlias(c, "bufalias", append(append([]string{}, feat...), seqs...)...)
 				c.floor("bufalias", 4)
@@ -178,6 +183,7 @@ func init() {
 			})
 			c.guard("slicebounds", func() { ruleSliceBounds(c, "slicebounds"); c.floor("slicebounds", 4) })
 			c.guard("parallelidx", func() { ruleParallelIdx(c, "parallelidx"); c.floor("parallelidx", 1) })
+			c.guard("trimwindow", func() { ruleTrimWindow(c, "trimwindow"); c.floor("trimwindow", 2) })
 			c.guard("mustpass", func() { ruleScratchReverse(c, "mustpass"); c.floor("mustpass", 1) })
 			c.guard("qtravel", func() {
 				ruleQTravel(c, "qtravel", [][2]string{{"seq/linear", "(*QSeq).RevComp"}, {"seq/linear", "(*QSeq).Reverse"}, {"seq/alignment", "(*QSeq).RevComp"}, {"seq/alignment", "(*QSeq).Reverse"}})
